@@ -89,23 +89,26 @@ def run_tags_chunk(chunk):
         served_all = [t for t, pl in zip(tags, placement) if pl != "absent"]
         served_head = [t for t, pl in zip(tags, placement) if pl == "head"]
         for scope in c09.SCOPES:
-          for bump, fetch_fault in [(b_, False) for b_ in P.get("bumps", [P["bump"]])] + [(P["bump"], True)]:
+          others = [x for x in c09.SCOPES if x != scope]
+          for bump, fetch_fault, cfg_scope in [(b_, False, None) for b_ in P.get("bumps", [P["bump"]])] + [(P["bump"], True, None)] + \
+                  [(P["bump"], False, others[sum(map(len, served_all)) % 2])]:
+            # cfg_scope: the config names another scope and the one under test comes from --tag-scope on the command line
             world.clear_dir(".")
-            world.write_tree(c09.project(name, cfgv, scope))
+            world.write_tree(c09.project(name, cfgv, cfg_scope or scope))
             os.mkdir(".git")
             # fetch_fault: a remote exists, fetching is on (the default) and `git fetch` fails (offline)
             fake = fakevcs.install(fakevcs.FakeVCS("git", tags_all=served_all, tags_merged=served_head, status=[],
                                                    fail=("fetch", 0) if fetch_fault else None))
             try:
-                o = world.cli("update", "--dry", "--fetch" if fetch_fault else "--no-fetch", *bump)
+                o = world.cli("update", "--dry", "--fetch" if fetch_fault else "--no-fetch", *(["--tag-scope", scope] if cfg_scope else []), *bump)
             finally:
                 fakevcs.uninstall()
             st.evaluations += 1
             st.transitions += 1
             st.validated += 1
-            st.state("tags", name, pos, scope, placement)
-            st.observe((name, pos, scope, placement, o.exit, o.new_version))
-            case = {"tags_case": name, "config": cfgv, "scope": scope, "bump": bump, "fetch_fails": fetch_fault, "tags": {t: pl for t, pl in zip(tags, placement) if pl != "absent"}}
+            st.state("tags", name, pos, scope, placement, cfg_scope)
+            st.observe((name, pos, scope, cfg_scope, placement, o.exit, o.new_version))
+            case = {"tags_case": name, "config": cfgv, "scope": scope, "bump": bump, "fetch_fails": fetch_fault, "config_scope": cfg_scope, "tags": {t: pl for t, pl in zip(tags, placement) if pl != "absent"}}
             if o.exit != 0:
                 st.outcomes["update --dry:refused(tags)"] += 1
                 continue
@@ -114,7 +117,7 @@ def run_tags_chunk(chunk):
             want = c09.expected_start(name, cfgv, scope, False, placement, tags)
             new = o.new_version
             if new is None or not all(bg.greater(new, s_) for s_ in want):
-                st.violation(f"C01:announced-version-not-greater-than-newest-tag-in-scope:{name}:{scope}" + (":fetch-failed" if fetch_fault else ""), case,
+                st.violation(f"C01:announced-version-not-greater-than-newest-tag-in-scope:{name}:{scope}" + (":fetch-failed" if fetch_fault else "") + (":scope-on-command-line" if cfg_scope else ""), case,
                              {"announced": new, "reference_start_version": sorted(want), "old_version_line": o.old_version})
     os.chdir("/")
     return st
